@@ -299,7 +299,7 @@ func TestC31(t *testing.T) {
 	r.Floor("hellos_roundtripped", 100)
 
 	// (b) conversions
-	n := mon.Pick(10000, 200000)
+	n := mon.Pick(10000, 2000000)
 	x25519, _ := ecdh.X25519().GenerateKey(crand.Reader)
 	p256, _ := ecdh.P256().GenerateKey(crand.Reader)
 	mlk, _ := mlkem.GenerateKey768()
